@@ -645,3 +645,45 @@ def inline_void_helpers(repo, rel, body_text, known=(), max_rounds=2):
         if not changed:
             break
     return text, bodies
+
+
+def translate_selection(name, text, alias, atoms, allowed_names, classes):
+    """`using <alias> = std::conditional_t<COND, A, B>;` inside an extracted body is a compile-time choice.  Instead of dropping it (which would let a changed choice pass silently) or
+    pinning its text (which makes every change undecided), it is TRANSLATED: COND is rewritten with `atoms` [(regex, C text)] into a C expression over free configuration names
+    (`allowed_names`; comparison / boolean operators and integer literals are allowed), A and B must start with one of `classes`.  Returns (text without the alias,
+    C condition, (class_A, template_args_A), (class_B, template_args_B)).  Anything outside this vocabulary is an ExtractionBreak of the function (undecided, never silent)."""
+    ms = list(re.finditer(r'using\s+' + re.escape(alias) + r'\s*=\s*std::conditional_t<', text))
+    if len(ms) != 1:
+        raise ExtractionBreak('%s: the selection `using %s = std::conditional_t<...>` was not found exactly once' % (name, alias))
+    st = ms[0].end() - 1
+    depth, i, parts, last = 0, st, [], st + 1
+    while i < len(text):
+        ch = text[i]
+        nxt = text[i + 1] if i + 1 < len(text) else ''
+        prev = text[i - 1] if i else ''
+        if ch == '(' or (ch == '<' and nxt != '=' and (i == st or re.match(r'[\w>]', prev))):        # `<` opens template arguments only after a name; `a <= b` / `a < b` with spaces are operators
+            depth += 1
+        elif ch == ')' or (ch == '>' and nxt != '=' and depth > 0 and not (prev == ' ' and nxt == ' ')):
+            depth -= 1
+            if depth == 0:
+                parts.append(text[last:i])
+                break
+        elif ch == ',' and depth == 1:
+            parts.append(text[last:i])
+            last = i + 1
+        i += 1
+    end = text.find(';', i)
+    if len(parts) != 3 or end < 0:
+        raise ExtractionBreak('%s: selection %s is not of the form conditional_t<COND, A, B>' % (name, alias))
+    cond = parts[0]
+    for rx, rep in atoms:
+        cond = re.sub(rx, rep, cond)
+    if re.search(r'[^\s!&|()<>=\w]', cond) or [w for w in re.findall(r'[A-Za-z_]\w*', cond) if w not in allowed_names]:
+        raise ExtractionBreak('%s: the condition of selection %s has a term outside the translated vocabulary: %s' % (name, alias, ' '.join(parts[0].split())))
+    out = []
+    for pt in parts[1:]:
+        m = re.match(r'\s*(' + '|'.join(re.escape(c) for c in classes) + r')\b\s*(?:<(.*)>)?\s*$', pt, flags=re.S)
+        if not m:
+            raise ExtractionBreak('%s: unknown class in selection %s: %s' % (name, alias, ' '.join(pt.split())))
+        out.append((m.group(1), ' '.join((m.group(2) or '').split())))
+    return text[:ms[0].start()] + text[end + 1:], ' '.join(cond.split()), out[0], out[1]
